@@ -340,7 +340,7 @@ def model_histories(res, name, runs):
             idx.append(i)
     if not cases:
         return 0
-    okc, failing, clog = run_coq_cases(name, IMPORTS, "hcase", "hcheck", cases, shard=max(2, len(cases) // 16 + 1), extra_defs=EXTRA, timeout=2400)
+    okc, failing, clog = run_coq_cases(name, IMPORTS, "hcase", "hcheck", cases, shard=min(40, max(2, len(cases) // 16 + 1)), extra_defs=EXTRA, timeout=2400)
     if not okc:
         res.tie_broken("correspondence: evaluating the server model failed", clog)
     for i in failing[:10]:
